@@ -1905,8 +1905,24 @@ def nditer(arrs, **kw):
             yield _It(v)
         return
     flats = [asarray(a).flat_values() for a in arrs]
+    # python containers hash their keys: when any operand is symbolic, concrete numbers are lifted to constant symbolic
+    # scalars too so that every value hashes alike and equality alone decides dict / set / Counter membership
+    if _bi.any(_is_sym(v) for f in flats for v in f):
+        flats = [[_lift_const(v) for v in f] for f in flats]
     for tup in zip(*flats):
         yield tuple(_It(v) for v in tup)
+
+
+def _lift_const(v):
+    if _is_sym(v):
+        return v
+    if isinstance(v, (bool, _np.bool_)):
+        return v
+    if isinstance(v, (int, _np.integer)):
+        return SI.lift(int(v))
+    if isinstance(v, (float, _np.floating)):
+        return SF.lift(float(v))
+    return v
 
 
 def ndenumerate(a):
